@@ -1,6 +1,6 @@
 import MxModel.Struct.Namespace
 import MxModel.Generated.Tables
-import MxModel.Proofs.StructMechCor
+import MxModel.Proofs.StructMechLive
 /-!
 # C12 – the visible namespace equals the containers, with the documented precedence
 
